@@ -74,8 +74,8 @@ class C15(Prop):
                                              for _ in range(rng.randint(0, 14)))))
             yield Case('roundtrip', ('csv', delim, quote, q, rng.choice(['utf-8', 'utf-8', 'utf-16', 'latin-1', 'cp1252']),
                                      rng.choice(['path', 'gz', 'bz2', 'mem']), rng.random() < 0.8, rows))
-            yield Case('roundtrip', ('csv_append', delim, quote, q, 'utf-8', rng.choice(['path', 'gz', 'bz2', 'mem']),
-                                     self._rows(rng, True), self._rows(rng, True)))
+            yield Case('roundtrip', ('csv_append', delim, quote, q, rng.choice(['utf-8', 'utf-8', 'utf-16', 'utf-8-sig', 'utf-32']),
+                                     rng.choice(['path', 'gz', 'bz2', 'mem']), self._rows(rng, True), self._rows(rng, True)))
             yield Case('roundtrip', ('json_ragged', rng.random() < 0.5, rng.choice(['path', 'mem']),
                                      tuple(tuple(rng.choice(['x', 1, None, 'é']) for _ in range(rng.choice([0, 1, 2, 3, 3])))
                                            for _ in range(rng.choice([1, 2, 4])))))
@@ -341,6 +341,9 @@ class C15(Prop):
         a = case.arg
         if case.op == 'const_true' and a[0] in ('csv', 'csv_append') and a[4] in ('utf-16', 'utf-32') and a[5] == 'bz2':
             return 'csv-bom-codec-on-bz2'
+        if case.op == 'const_true' and a[0] == 'csv_append' and (
+                (a[5] == 'gz' and a[4] in ('utf-8-sig', 'utf-16', 'utf-32')) or (a[5] == 'bz2' and a[4] == 'utf-8-sig')):
+            return 'csv-append-bom-on-compressed'
         return None
 
     def nontrivial(self, case):
